@@ -97,9 +97,14 @@ def script(items):
     L = []
     for it in items:
         c = it["cfg"]
-        L.append(f"beh {it['k']} tz={c.get('tz') or 'GMT'}")
+        # a Timezone::GmtTime sink must not depend on the PROCESS zone: a third of them run under New York, a third under Kolkata
+        ptz = c.get("tz") or "GMT"
+        if c["zone"] == "G":
+            ptz = ("GMT", "America/New_York", "Asia/Kolkata")[it["k"] % 3]
+        # every fourth execution installs an identity before_write callback (must not change anything observable)
+        L.append(f"beh {it['k']} tz={ptz}")
         L.append(f"cfg limit={c['limit']} maxb={c['maxb']} over={c['over']} scheme={c['scheme']} freq={c['freq']} "
-                 f"interval={c['interval']} daily={c['daily']} zone={c['zone']} clean={c['clean']}")
+                 f"interval={c['interval']} daily={c['daily']} zone={c['zone']} clean={c['clean']} bw={1 if it['k'] % 4 == 3 else 0}")
         for n in it.get("pre", []):
             L.append(f"pre {n}")
         for op in it["ops"]:
